@@ -48,6 +48,14 @@ CLAIMED = {
             'exploration: held on ~4x10^4 probes per quick run (ages from metres off the ridge axis to 300 Myr, both coordinate systems, all slab shapes of the C06 generator below 85 degrees dip)',
             'an envelope, not an equality: a wrong profile that stays inside it and keeps the monotonicities passes (C05 covers the oceanic formulas); excursions bounded by the analytic truncation bound of the 100-term series are a known finding',
             'DESIGN.md section 4, C20'),
+    'C02': ('runtime monitoring: metamorphic + compositional monitor - per stack of overlapping features the world, every single-feature and single-model world and deletion/move variants are queried in one process; locality by bit equality, tag of the last covering feature, and a fold of measured isolated model values through the declared operations (ASan+UBSan build)',
+            'exploration: held on ~4x10^3 points per quick run over 100 stacks of 2-6 features (~30 worlds each) covering every feature type and operation; the fold oracle needs no knowledge of any model formula',
+            'coverage is decided by the code\'s own single-feature answer (tag != -1); stacks containing the mass conserving model (reads the value painted so far) take part in locality/tag only; velocity is not part of the property',
+            'DESIGN.md section 4, C02'),
+    'C07': ('runtime monitoring with instrumentation hooks: the same queries against a world built normally and a world built with the GWB_VERIF switch that disables bounding box, depth cut-off, depth-surface pre-test and nearest-triangle search; bit equality, margin pass for depth-surface rounding (ASan+UBSan build)',
+            'exploration: held on ~3.4x10^4 paired queries per quick run with generators biased to where the bounds are tight (deep starts, shallow/steep/overturned dips, short thick slabs, negative truncations, high latitudes, dateline, points around the buffered box and cut-off)',
+            'the models\' own min/max pre-tests (about 40 copies) are not hooked; a difference is excused only if both worlds agree 1e-9 (relative) above and below the query depth and the two sides differ',
+            'DESIGN.md section 4, C07'),
 }
 
 PENDING_REASON = 'check not built yet (work in progress; see DESIGN.md section 9)'
